@@ -646,3 +646,315 @@ func reflectDeepEqualStrs(a, b []string) bool {
 	}
 	return true
 }
+
+// ---- C03 through a real session --------------------------------------------------------------------
+
+type vxC03Bind struct {
+	Kind int    `json:"kind"` // 0 int, 1 text, 2 nil, 3 unset (v4+)
+	Int  int32  `json:"int,omitempty"`
+	Text string `json:"text,omitempty"`
+}
+
+type vxC03SessCase struct {
+	Proto    int                 `json:"proto"`
+	Snappy   bool                `json:"snappy"`
+	Keyspace bool                `json:"keyspace"`
+	Kind     string              `json:"kind"` // query prepared batch
+	Cons     int                 `json:"cons"`
+	PageSize int                 `json:"page_size"` // -1: leave the session default (5000)
+	StateHex string              `json:"state,omitempty"`
+	Serial   int                 `json:"serial,omitempty"`
+	TSMode   int                 `json:"ts_mode"` // 0 session default (enabled, "now"), 1 explicit value, 2 disabled
+	TS       int64               `json:"ts,omitempty"`
+	Trace    bool                `json:"trace,omitempty"`
+	Payload  map[string]string   `json:"payload,omitempty"`
+	NoSkip   bool                `json:"no_skip,omitempty"`
+	Named    bool                `json:"named,omitempty"`
+	Binds    []vxC03Bind         `json:"binds,omitempty"`   // prepared
+	BatchTyp int                 `json:"batch_type,omitempty"`
+	Entries  [][]vxC03Bind       `json:"entries,omitempty"` // batch: per entry its binds (none: plain text entry)
+}
+
+func vxDrawBinds(t *rapid.T, proto int, min int) []vxC03Bind {
+	n := rapid.IntRange(min, 4).Draw(t, "nbind")
+	var out []vxC03Bind
+	for i := 0; i < n; i++ {
+		b := vxC03Bind{Kind: rapid.IntRange(0, 3).Draw(t, "bkind")}
+		if b.Kind == 3 && proto < 4 {
+			b.Kind = 2
+		}
+		b.Int = int32(rapid.Int32().Draw(t, "bint"))
+		b.Text = rapid.String().Draw(t, "btext")
+		out = append(out, b)
+	}
+	return out
+}
+
+func vxBindArgs(binds []vxC03Bind, named bool) ([]interface{}, []cqlspec.ReqValue) {
+	var args []interface{}
+	var exp []cqlspec.ReqValue
+	for i, b := range binds {
+		var a interface{}
+		var e cqlspec.ReqValue
+		switch {
+		case b.Kind == 2:
+			a, e = nil, cqlspec.ReqValue{Null: true}
+		case b.Kind == 3:
+			a, e = UnsetValue, cqlspec.ReqValue{Unset: true}
+		case i%2 == 0: // even bind columns are int, odd ones text (see the node's PREPARED answer)
+			a, e = b.Int, cqlspec.ReqValue{Hex: hex.EncodeToString([]byte{byte(b.Int >> 24), byte(b.Int >> 16), byte(b.Int >> 8), byte(b.Int)})}
+		default:
+			a, e = b.Text, cqlspec.ReqValue{Hex: hex.EncodeToString([]byte(b.Text))}
+		}
+		if named {
+			name := "n" + itoa(i)
+			a = NamedValue(name, a)
+			e.Name = name
+		}
+		args = append(args, a)
+		exp = append(exp, e)
+	}
+	return args, exp
+}
+
+func TestVxC03Session(t *testing.T) {
+	vx.Check(t, vx.Prop{
+		ID: "C03", Part: "TestVxC03Session",
+		Rule: "a real session (protocol 1..5, snappy or none, keyspace or none) executes one request through the public API: an unprepared query, a prepared query with 1..4 bound values (int / text / nil / UnsetValue(v4+), optionally NamedValue(v3+)) or a batch (type, 0..3 entries with 0..4 values); options drawn: consistency, page size (set / default / 0), paging state, serial consistency, timestamp (default now / explicit / disabled), tracing, custom payload (v4+), NoSkipMetadata; the frame the node received is decoded by lib/cqlspec and compared with what was asked; non-trivial = >= 2 options or a null/unset/named value; distinct by the case",
+		Draw: func(t *rapid.T) interface{} {
+			c := &vxC03SessCase{Proto: rapid.IntRange(1, 5).Draw(t, "proto"), Snappy: rapid.Bool().Draw(t, "snappy"), Keyspace: rapid.Bool().Draw(t, "ks"),
+				Kind: rapid.SampledFrom([]string{"query", "prepared", "prepared", "batch"}).Draw(t, "kind"),
+				Cons: rapid.IntRange(0, 10).Draw(t, "cons"), PageSize: rapid.SampledFrom([]int{-1, -1, 0, 1, 77, 100000}).Draw(t, "pagesize"),
+				Serial: rapid.SampledFrom([]int{0, 0, 8, 9}).Draw(t, "serial"), TSMode: rapid.IntRange(0, 2).Draw(t, "tsmode"),
+				TS: rapid.OneOf(rapid.Int64(), rapid.Just(int64(-5)), rapid.Just(int64(1))).Draw(t, "ts"), Trace: rapid.IntRange(0, 3).Draw(t, "trace") == 0,
+				NoSkip: rapid.IntRange(0, 3).Draw(t, "noskip") == 0}
+			if c.TS == 0 {
+				c.TS = 7
+			}
+			if c.Kind == "batch" && c.Proto < 2 {
+				c.Proto = 2
+			}
+			if rapid.IntRange(0, 2).Draw(t, "state") == 0 {
+				c.StateHex = hex.EncodeToString(vxDrawBytes(t, 20))
+			}
+			if c.Proto >= 4 && rapid.IntRange(0, 3).Draw(t, "payload") == 0 {
+				c.Payload = map[string]string{rapid.StringMatching(`[a-z]{1,6}`).Draw(t, "pk"): hex.EncodeToString(vxDrawBytes(t, 10))}
+			}
+			switch c.Kind {
+			case "prepared":
+				c.Binds = vxDrawBinds(t, c.Proto, 1)
+				c.Named = c.Proto >= 3 && rapid.IntRange(0, 3).Draw(t, "named") == 0
+			case "batch":
+				c.BatchTyp = rapid.IntRange(0, 2).Draw(t, "btype")
+				for i := rapid.IntRange(0, 3).Draw(t, "nentries"); i > 0; i-- {
+					c.Entries = append(c.Entries, vxDrawBinds(t, c.Proto, 0))
+				}
+			}
+			return c
+		},
+		New: func() interface{} { return &vxC03SessCase{} },
+		Run: func(ci interface{}, k *vstats.Case) error {
+			c := ci.(*vxC03SessCase)
+			if c.Proto < 1 || c.Proto > 5 || (c.Kind == "batch" && c.Proto < 2) {
+				return nil
+			}
+			cl := vnode.NewCluster(vxSpecs(1, 1))
+			node := cl.Nodes()[0]
+			ids := map[string]string{} // statement -> id hex
+			node.Handler = func(rc *vnode.ReqCtx) {
+				if rc.Req.Kind == "PREPARE" {
+					var bind []cqlspec.Column
+					n := strings.Count(rc.Req.Statement, "?")
+					for i := 0; i < n; i++ {
+						ty := cqlspec.Scalar(cqlspec.Int)
+						if i%2 == 1 {
+							ty = cqlspec.Scalar(cqlspec.Varchar)
+						}
+						bind = append(bind, cqlspec.Column{Keyspace: "ks1", Table: "t", Name: "n" + itoa(i), Type: ty})
+					}
+					if bind == nil {
+						bind = []cqlspec.Column{}
+					}
+					id := hex.EncodeToString([]byte("id:" + rc.Req.Statement))
+					ids[rc.Req.Statement] = id
+					rc.Reply(&cqlspec.Response{Kind: "PREPARED", PreparedIDHex: id, Meta: &cqlspec.Metadata{Columns: bind}, ResultMeta: &cqlspec.Metadata{Columns: []cqlspec.Column{}}})
+					return
+				}
+				if rc.Req.Header.Flags&cqlspec.FlagTracing != 0 {
+					rc.Reply(&cqlspec.Response{Kind: "VOID", TraceHex: "000102030405060708090a0b0c0d0e0f"})
+					return
+				}
+				rc.Reply(vxVoid())
+			}
+			var comp Compressor
+			if c.Snappy {
+				comp = SnappyCompressor{}
+			}
+			s, err := vxClusterConfig(cl, c.Proto, func(cfg *ClusterConfig) {
+				cfg.Compressor = comp
+				if c.Keyspace {
+					cfg.Keyspace = "ks1"
+				}
+			}).CreateSession()
+			if err != nil {
+				return fmt.Errorf("harness: CreateSession: %v", err)
+			}
+			defer s.Close()
+			exp := &vxC03Case{Version: c.Proto, Snappy: c.Snappy, Tracing: c.Trace, Payload: c.Payload, Cons: c.Cons, Serial: c.Serial}
+			if c.Proto >= 5 && c.Keyspace {
+				exp.Keyspace = "ks1"
+			}
+			switch c.TSMode {
+			case 0:
+				exp.DefTS = true
+			case 1:
+				exp.DefTS, exp.TS = true, c.TS
+			}
+			pay := vxPayloadBytes(c.Payload)
+			tr := &vxTracer{}
+			stmtQ := "LIST q"
+			placeholders := func(n int) string {
+				return "SELECT a FROM t WHERE " + strings.TrimSuffix(strings.Repeat("c = ? AND ", n), " AND ")
+			}
+			t0 := time.Now()
+			var execErr error
+			wantKind := ""
+			switch c.Kind {
+			case "query", "prepared":
+				stmt := stmtQ
+				var args []interface{}
+				if c.Kind == "prepared" {
+					stmt = placeholders(len(c.Binds))
+					var ev []cqlspec.ReqValue
+					args, ev = vxBindArgs(c.Binds, c.Named)
+					exp.Values = ev
+					exp.Kind, wantKind = "EXECUTE", "EXECUTE"
+					exp.SkipMeta = !c.NoSkip && c.Proto > 1
+				} else {
+					exp.Kind, wantKind, exp.Stmt = "QUERY", "QUERY", stmt
+				}
+				q := s.Query(stmt, args...).Consistency(Consistency(c.Cons))
+				exp.PageSize = 5000
+				if c.PageSize >= 0 {
+					q = q.PageSize(c.PageSize)
+					exp.PageSize = c.PageSize
+				}
+				if c.StateHex != "" {
+					q = q.PageState(mustUnhex(c.StateHex))
+					st := c.StateHex
+					exp.StateHex = &st
+				}
+				if c.Serial > 0 {
+					q = q.SerialConsistency(SerialConsistency(c.Serial))
+				}
+				switch c.TSMode {
+				case 1:
+					q = q.WithTimestamp(c.TS)
+				case 2:
+					q = q.DefaultTimestamp(false)
+				}
+				if c.Trace {
+					q = q.Trace(tr)
+				}
+				if pay != nil {
+					q = q.CustomPayload(pay)
+				}
+				if c.NoSkip {
+					q = q.NoSkipMetadata()
+				}
+				execErr = q.Exec()
+				if c.Kind == "prepared" {
+					exp.IDHex = ids[stmt]
+				}
+			case "batch":
+				b := s.NewBatch(BatchType(c.BatchTyp))
+				b.SetConsistency(Consistency(c.Cons))
+				exp.Kind, wantKind, exp.BatchTyp = "BATCH", "BATCH", c.BatchTyp
+				type ent struct {
+					stmt string
+					n    int
+				}
+				var ents []ent
+				for i, binds := range c.Entries {
+					if len(binds) == 0 {
+						st := "INSERT INTO t (a) VALUES (" + itoa(i) + ")"
+						b.Query(st)
+						exp.Entries = append(exp.Entries, cqlspec.BatchEntry{Statement: st})
+						continue
+					}
+					st := "INSERT INTO t" + itoa(i) + " (a) VALUES (" + strings.TrimSuffix(strings.Repeat("?, ", len(binds)), ", ") + ")"
+					args, ev := vxBindArgs(binds, false)
+					b.Query(st, args...)
+					ents = append(ents, ent{st, len(exp.Entries)})
+					exp.Entries = append(exp.Entries, cqlspec.BatchEntry{Prepared: true, Values: ev})
+				}
+				if c.Serial > 0 {
+					b.SerialConsistency(SerialConsistency(c.Serial))
+				}
+				switch c.TSMode {
+				case 1:
+					b.WithTimestamp(c.TS)
+				case 2:
+					b.DefaultTimestamp(false)
+				}
+				if c.Trace {
+					b.Trace(tr)
+				}
+				if pay != nil {
+					b.CustomPayload = pay
+				}
+				execErr = s.ExecuteBatch(b)
+				for _, e := range ents {
+					exp.Entries[e.n].IDHex = ids[e.stmt]
+				}
+			}
+			t1 := time.Now()
+			if execErr != nil {
+				return fmt.Errorf("%s failed: %v", c.Kind, execErr)
+			}
+			opt := 0
+			for _, b := range []bool{c.PageSize >= 0, c.StateHex != "", c.Serial > 0, c.TSMode != 0, c.Trace, c.Payload != nil, c.NoSkip, c.Snappy, c.Keyspace} {
+				if b {
+					opt++
+				}
+			}
+			k.Class(fmt.Sprintf("v%d %s", c.Proto, c.Kind))
+			if opt >= 2 || c.Named {
+				k.NonTrivial()
+			}
+			var got *cqlspec.Request
+			maxStream := 127
+			if c.Proto >= 3 {
+				maxStream = 32767
+			}
+			for _, l := range cl.AllLogs() {
+				if l.Err != "" {
+					return fmt.Errorf("node could not decode a request: %s", l.Err)
+				}
+				if l.Req.Header.Version != c.Proto {
+					return fmt.Errorf("%s frame with version %d on a v%d session", l.Req.Kind, l.Req.Header.Version, c.Proto)
+				}
+				if l.Req.Header.Stream < 0 || l.Req.Header.Stream > maxStream {
+					return fmt.Errorf("%s frame with stream id %d", l.Req.Kind, l.Req.Header.Stream)
+				}
+				if l.Req.Kind == wantKind && !(wantKind == "QUERY" && l.Req.Statement != stmtQ) {
+					if got != nil {
+						return fmt.Errorf("the %s request was sent more than once", wantKind)
+					}
+					got = l.Req
+				}
+			}
+			if got == nil {
+				return fmt.Errorf("no %s request reached the node", wantKind)
+			}
+			exp.Stream = got.Header.Stream
+			if c.Trace && (len(tr.ids) != 1 || hex.EncodeToString(tr.ids[0]) != "000102030405060708090a0b0c0d0e0f") {
+				return fmt.Errorf("tracer got %x", tr.ids)
+			}
+			if err := vxCompareC03(exp, got, t0, t1); err != nil {
+				return fmt.Errorf("%s v%d: the request on the wire differs from what was asked: %v", c.Kind, c.Proto, err)
+			}
+			return nil
+		},
+	})
+}
